@@ -210,7 +210,8 @@ func removeFromSlice(sl []string, s ...string) []string {
 			if len(sl) == 1 {
 				return nil
 			}
-			sl = slices.Delete(sl, idx, idx+1)
+			// work on a copy: the backing array can be shared with other copies of the same Source
+			sl = slices.Delete(slices.Clone(sl), idx, idx+1)
 		}
 	}
 	return sl
